@@ -7,8 +7,8 @@ KINDS = ("align", "ws", "relex")
 
 def plan(tier):
     if tier == "quick":
-        return [("layout", 5), ("altspell", 5), ("numbers", 4), ("operators", 4)]
-    return [("layout", 7), ("altspell", 6), ("numbers", 6), ("operators", 6)]
+        return [("layout", 5), ("altspell", 5), ("numbers", 4), ("operators", 4), ("quotes", 5)]
+    return [("layout", 7), ("altspell", 6), ("numbers", 6), ("operators", 6), ("quotes", 6)]
 
 
 def run(tier, seed):
